@@ -122,6 +122,23 @@ func guarded(inputLen int, measure bool, f func() ([]byte, error)) (res decodeRe
 	return
 }
 
+// c17FailDst refuses writes: all of them (0), every other one (1), or all from the
+// third on (2).
+type c17FailDst struct {
+	w    io.Writer
+	mode int
+	n    int
+}
+
+func (d *c17FailDst) Write(p []byte) (int, error) {
+	d.n++
+	zsim.Yield("dst.Write")
+	if d.mode == 0 || (d.mode == 1 && d.n%2 == 0) || (d.mode == 2 && d.n >= 3) {
+		return 0, errors.New("destination refuses the write")
+	}
+	return d.w.Write(p)
+}
+
 func hexClip(b []byte, n int) string {
 	if len(b) <= n {
 		return fmt.Sprintf("%x", b)
@@ -331,9 +348,21 @@ func (c17World) Run(prop string, ch *zsim.Choices, trace bool) *RunResult {
 				zsim.Fault("read_error")
 				desc += fmt.Sprintf("+read error at %d", rd.failAt)
 			}
+			var fd *c17FailDst
+			if ch.Chance(1, 4) {
+				// the destination of the decoded text refuses writes (a closed pipe, a full disk)
+				fd = &c17FailDst{mode: ch.Intn(3)}
+				zsim.Fault("dst_error")
+				desc += fmt.Sprintf("+destination refusing writes (mode %d)", fd.mode)
+			}
 			r := guarded(len(buf), true, func() ([]byte, error) {
 				var out bytes.Buffer
-				err := cbor.Cbor2JsonManyObjects(rd, &out)
+				var dst io.Writer = &out
+				if fd != nil {
+					fd.w = &out
+					dst = fd
+				}
+				err := cbor.Cbor2JsonManyObjects(rd, dst)
 				return out.Bytes(), err
 			})
 			if v := totalityViolation(r, buf, desc); v != nil {
